@@ -163,6 +163,18 @@ func (ex *Exec) callValue(s *State, fr *Frame, instr ssa.Value, cc *ssa.CallComm
 			fr.IP++
 			return nil, nil
 		}
+		if af, aerr := ex.findAsm(fn); aerr == nil {
+			ret, err := ex.runAsm(s, fn, af, args)
+			if err != nil {
+				return nil, err
+			}
+			ex.Funcs["asm:"+fn.String()] = true
+			if instr != nil {
+				fr.Locals[instr] = ret
+			}
+			fr.IP++
+			return nil, nil
+		}
 		return nil, unsupported("call of body-less function %s (no model)", name)
 	}
 	if len(s.Stack) > 400 {
